@@ -331,3 +331,22 @@ def run_cases(ctx, name, cases, shard=400):
                 acc[key].extend(i * shard + j for j in idx)
     ctx.checker_cmds.append("coqc -Q coq MoSql <generated case files> (Eval vm_compute)")
     return acc, ""
+
+
+def full_sql(t):
+    """independent, fully parenthesised SQL text of an abstract tree over the formatter's infix vocabulary"""
+    if t[0] == "A":
+        n = t[1]
+        return "NULL" if n == 0 else ("(" + ", ".join(map(str, LISTS[n - LIST_ATOM])) + ")" if n >= LIST_ATOM else "x%d" % n)
+    name, args = t[1], t[2]
+    i = T["info"][name]
+    w = " ".join(T["spell"][i["sp"]]["words"])
+    a = [full_sql(x) if x[0] == "A" else "(" + full_sql(x) + ")" for x in args]
+    k = i["kind"]
+    if k == "KPre":
+        return "%s %s" % (w, a[0])
+    if k == "KBinNull":
+        return "%s %s NULL" % (a[0], w)
+    if k == "KTern":
+        return "%s %s %s %s %s" % (a[0], w, a[1], " ".join(T["spell"][i["sp2"]]["words"]), a[2])
+    return (" %s " % w).join(a)
